@@ -9,8 +9,8 @@ def remove_element(network: Network, element: str) -> Network:
     branches.remove(network[element])
     return Network(branches, node_zero_label=network.node_zero_label)
 
-def remove_open_circuit_elements(network: Network) -> Network:
-    return Network([b for b in network.branches if not is_open_circuit(b.element)], node_zero_label=network.node_zero_label)
+def remove_open_circuit_elements(network: Network, keep: list[NortenTheveninElement] = []) -> Network:
+    return Network([b for b in network.branches if not is_open_circuit(b.element) or b.element in keep], node_zero_label=network.node_zero_label)
 
 def remove_short_circuit_elements(network: Network, keep: list[NortenTheveninElement] = []) -> Network:
     branches = network.branches
@@ -52,7 +52,7 @@ def open_circuitify_current_sources(network: Network, keep: list[NortenTheveninE
     )
 
 def remove_ideal_current_sources(network: Network, keep: list[NortenTheveninElement] = []) -> Network:
-    return remove_open_circuit_elements(open_circuitify_current_sources(network, keep=keep))
+    return remove_open_circuit_elements(open_circuitify_current_sources(network, keep=keep), keep=keep)
 
 def remove_ideal_voltage_sources(network: Network, keep: list[NortenTheveninElement] = []) -> Network:
     return remove_short_circuit_elements(short_circuitify_voltage_sources(network, keep=keep), keep=keep)
